@@ -483,7 +483,7 @@ Section Exec2.
   Lemma run_lencheck len post limit b en z ss u L lim :
     eval_int' len en (at_ z ss u) = EOk L ->
     (forall v, eval_int' limit ((post, v) :: en) (at_ z ss u) = EOk lim) ->
-    - Z.of_N two63 <= L < Z.of_N two63 -> 0 <= z <= lim -> lim <= dlen ->
+    - Z.of_N two63 <= L < Z.of_N two63 -> 0 <= z <= dlen -> lim <= dlen ->
     run' (u_lencheck len post limit ++ b) en (at_ z ss u) =
     if L <? 0 then XDone Err
     else if lim - z <? L then XDone Err
